@@ -23,7 +23,7 @@ CLAIMED = {
          "time decomposition for a symbolic instant with the calendar functions uninterpreted (shared by implementation and oracle).", "4 C17"),
  "C02": ("Bounded symbolic execution of generated control-flow programs (if/else-if/else, while, foreach over array/string/hash/range with value and index, switch with literal/expression/regexp cases and default in any position, ternary as value and as statement, return) "
          "whose conditions, loop counters, switch subjects and container contents are symbolic; result, host-call trace and final variables are compared with an independent reference interpreter; the solver covers every truth assignment and iterable content per program shape. "
-         "Holds within: nesting depth 2 (quick) / 3, loops <= 3 iterations, iterables <= 2 elements.", "4 C02"),
+         "Holds within: one construct (quick) / a construct nested inside any construct (thorough; nested level: if, if-else, while, foreach over an array) followed by a trace or return, loops <= 3 iterations, iterables <= 2 elements.", "4 C02"),
  "C03": ("Self-comparison under bounded symbolic execution: the same program prepared with and without NoOptimize, two runs each, must agree on failure, result (type and payload), host calls and variables. Programs: generated control flow with one constant condition "
          "(six kinds the optimizer rewrites) and constant arithmetic after ternary/if joins; 16 templates whose integer literals are symbolic in [0,70000] (injected at AST level), so the inline limit 65534 and every fold condition are decided by the solver.", "4 C03"),
  "C04": ("Bounded symbolic execution of the reflection layer: a struct with one field per supported kind (all leaf values symbolic, slices of length <= 2/3, two field orders, by value and by pointer), shadowing variables, unknown names, legacy $ prefix; "
